@@ -28,7 +28,7 @@ RULE = (
 )
 ASSUMPTIONS = ["the clock is the real one or freezegun's; no concurrent second writer on the same history"]
 BUDGET = {"quick": (220, 4), "thorough": (24000, 16)}
-REQUIRED = ["gens>=3", "failed_run", "same_second", "nested", "sf", "empty_root_sealed"]
+REQUIRED = ["gens>=3", "failed_run", "same_second", "nested", "sf", "empty_root_sealed", "non_utc_host_zone"]
 
 CFG = {
     "kinds": ["create"] * 6 + ["create_sf"] * 2 + ["put_new", "overwrite", "overwrite", "rm", "rm", "rmtree", "mkdir", "mv", "rmfiles"],
@@ -44,6 +44,7 @@ NAME_RE = re.compile(r"^(\d{4})_(.*)_(\d{4}-\d{2}-\d{2}_\d{6})Z\.mhl$", re.S)
 def _scn(draw):
     s = draw(hist.scenarios_deep(CFG))
     s["frozen"] = draw(st.sampled_from([None, None, "2020-01-15 13:00:00", "1999-12-31 23:59:59"]))
+    s["tz"] = draw(st.sampled_from([None, None, "IST-5:30", "America/Los_Angeles", "Pacific/Kiritimati"])) if s["frozen"] is None else None
     return s
 
 
@@ -118,6 +119,27 @@ def observe(w, before, after, res, t0, t1, frozen, ctx, stats, invoked=None):
 
 def run_case(scn, ctx):
     stats = {"gens": {}, "stamps": {}}
+    failed_run = False
+    sf = False
+    import os as _os
+
+    old_tz = _os.environ.get("TZ")
+    if scn.get("tz"):
+        _os.environ["TZ"] = scn["tz"]
+        time.tzset()
+        ctx.event("non_utc_host_zone")
+    try:
+        return _run(scn, ctx, stats)
+    finally:
+        if scn.get("tz"):
+            if old_tz is None:
+                _os.environ.pop("TZ", None)
+            else:
+                _os.environ["TZ"] = old_tz
+            time.tzset()
+
+
+def _run(scn, ctx, stats):
     failed_run = False
     sf = False
     with World("c06") as w:
